@@ -668,3 +668,9 @@ PROPS["C06"]._k = PROPS["C06"]._k + [u for u in [props_lexer.C18_UNITS[1]] + pro
 _add_v("C19", "validate")                             # which duplicate parameter is reported must not depend on a hash seed (iteration over a HashMap is not modelled: undecided)
 _add_v("C19", "run_script")                           # which file is read: <cwd>/<path as given>, whatever the spelling; its text reaches the lexer unchanged
 PROPS["C19"].assumptions = PROPS["C19"].assumptions + ["V-run: the file system, the lexer + parser and the evaluator are external"]
+
+
+# round-6 seeds
+_add_v("C15", "binop", "expr")      # `+` on strings is byte concatenation; s[i] is defined exactly for 0 <= i < len (bytes)
+_add_v("C09", "expr", "render")     # the position handed to an interpolated literal is (line, column) of the literal; nested positions are rendered in full
+PROPS["C10"]._k = PROPS["C10"]._k + [u for u in props_lexer.C03_UNITS if u.harness.startswith("c03_") and "symbol" in u.harness and u not in PROPS["C10"]._k]   # `===` / `!==` are their own tokens
